@@ -453,3 +453,105 @@ Definition stored_check (v : val) : val :=
 
 (* ENGINE route_c04f Session.DeliverEngine.route_c04f *)
 Definition route_c04f (v : val) : val := stored_check v.
+
+(* ---------- C03 on the write path: bursts fed in one read (stream "c03w" of eng_route.go) ----------
+   op (10 c msg ...) = client c sends the PUBLISH packets msg ... in ONE read; the case is taken at quiescence.
+   obs = (recv inline ((client payload) ...) codes hung): drop reports carry the payload of the dropped message
+   (a PUBLISH larger than the subscriber's Maximum Packet Size is refused by its write loop and reported).
+   Payloads are unique within a history.  Verdict: every entitled copy that was not reported dropped is on the
+   wire exactly once, nothing else is. *)
+Definition as_burst (v : val) : option (list op) :=
+  match v with
+  | VL (VN 10 :: VB c :: msgs) =>
+      map_opt (fun m => match m with VL l => do x <- as_msg l; Some (OPublish c x) | _ => None end) msgs
+  | _ => None
+  end.
+Definition as_ops_expanding (l : list val) : option (list op) :=
+  do ll <- map_opt (fun v => match as_burst v with Some b => Some b | None => do o <- as_op v; Some [o] end) l;
+  Some (concat ll).
+
+Definition as_drop2 (v : val) : option (cid * bytes) := match v with VL [VB c; VB p] => Some (c, p) | _ => None end.
+
+Definition dropped_for (drops : list (cid * bytes)) (p : bytes) : list cid :=
+  flat_map (fun e => if beq_bytes (snd e) p then [fst e] else []) drops.
+
+(* one publish of the burst in state s: (specification ok, model deliveries) *)
+Definition burst_one (s : state) (o : op) (recv : list (cid * list delivery)) (drops : list (cid * bytes)) : bool * list delivery :=
+  match pub_of o with
+  | None => (true, [])
+  | Some m =>
+      let dr := dropped_for drops (m_payload m) in
+      let ok := forallb (fun e =>
+                  let '(c, cl) := e in
+                  let l := ent_subs c cl (m_topic m) [] in
+                  let got := filter (fun d => beq_bytes (d_payload d) (m_payload m))
+                                    (flat_map (fun r => if beq_bytes (fst r) c then snd r else []) recv) in
+                  let want := if spec_entitled s c cl m l && negb (existsb (beq_bytes c) dr) then 1%nat else 0%nat in
+                  Nat.eqb (length got) want
+                  && forallb (fun d => beq_bytes (d_topic d) (m_topic m)
+                                       && ((cl_ver cl <? 5) || beq_mprops (d_props d) (m_props m))) got)
+                 (st_clients s) in
+      (ok, o_deliv (snd (step [] dr s o)))
+  end.
+
+Fixpoint burst_all (s : state) (ops : list op) (recv : list (cid * list delivery)) (drops : list (cid * bytes))
+  : bool * list delivery :=
+  match ops with
+  | [] => (true, [])
+  | o :: r =>
+      let '(ok1, d1) := burst_one s o recv drops in
+      let '(ok2, d2) := burst_all (fst (step [] [] s o)) r recv drops in
+      (ok1 && ok2, d1 ++ d2)
+  end.
+
+Definition burst_payloads (ops : list op) : list bytes :=
+  flat_map (fun o => match pub_of o with Some m => [m_payload m] | None => [] end) ops.
+
+Definition burst_check (v : val) : val :=
+  match v with
+  | VL [cfg; VL prefix; opv; VL [VL recv; VL _; VL drops; _; hung]] =>
+      match as_cfg cfg, as_ops_expanding prefix, as_burst opv, map_opt as_recv recv, map_opt as_drop2 drops, as_bool hung with
+      | Some s0, Some h, Some ops, Some rc, Some dr, Some hg =>
+          if hg then verdict 1 (tag "hung") true []
+          else
+            let s := run_ops s0 h in
+            let '(ok, model) := burst_all s ops rc dr in
+            let all := flat_map snd rc in
+            (* nothing but copies of the burst's messages may arrive *)
+            let known := forallb (fun d => existsb (beq_bytes (d_payload d)) (burst_payloads ops)) all in
+            let nt := negb (nilb dr) in
+            if negb (ok && known) then verdict 1 (tag "burst") nt []
+            else if mset_eq beq_delivery (map norm_delivery model) all then verdict 0 (tag "burst") nt []
+            else verdict 2 (tag "burst") nt []
+      | _, _, _, _, _, _ => bad_case
+      end
+  | _ => bad_case
+  end.
+
+(* the other steps of that stream: the ordinary C03 check, with bursts in the prefix expanded *)
+Definition route_c03w_step (v : val) : val :=
+  match v with
+  | VL [cfg; VL prefix; opv; obv] =>
+      match as_burst opv with
+      | Some _ => burst_check v
+      | None =>
+          match as_cfg cfg, as_ops_expanding prefix, as_op opv, as_obs obv with
+          | Some s0, Some h, Some o, Some ob =>
+              let s := run_ops s0 h in
+              let tg := op_tag o in
+              if ob_hung ob then verdict 1 (tag "hung") true []
+              else
+                let '(r, nt) := monitor 3 s h o ob in
+                match r with
+                | MFail => verdict 1 tg nt []
+                | MKf name => verdict 3 tg nt [VB name]
+                | MOk => if model_matches s o ob then verdict 0 tg nt [] else verdict 2 tg nt []
+                end
+          | _, _, _, _ => bad_case
+          end
+      end
+  | _ => bad_case
+  end.
+
+(* ENGINE route_c03w Session.DeliverEngine.route_c03w *)
+Definition route_c03w (v : val) : val := route_c03w_step v.
